@@ -13,7 +13,6 @@ CHECKS = {
         'level': 'exploration',
         'jobs': [
             {'engine': 'polyseq', 'variant': 'san', 'profile': 'dd', 'quick': 1600, 'thorough': 40000, 'avg_case_s': 0.15},
-            {'engine': 'polyseq', 'variant': 'san-assert', 'profile': 'dd', 'quick': 0, 'thorough': 8000, 'avg_case_s': 0.3, 'thorough_only': True},
         ],
         'prefixes': ['C01.'],
         'required_counters': ['dd_checks', 'twins', 'q.max_min', 'q.relation_with_c', 'q.relation_with_cg', 'q.relation_with_g'],
